@@ -458,6 +458,10 @@ impl<'a> View<'a> {
         if self.cbs_of(a).any(|c| c.enter < seq && c.exit.is_none_or(|x| x > seq)) {
             return true;
         }
+        // an actor whose first `started()` has not run yet is starting, not idle
+        if !self.cbs_of(a).any(|c| c.cb == Cb::Started && c.enter < seq) {
+            return true;
+        }
         let Some(aidx) = a.aidx else { return false };
         for o in self.ops.iter().filter(|o| o.target == Some(aidx) && !o.skipped()) {
             if let (Op::Send { id, .. } | Op::ForceSend { id, .. } | Op::Call { id, .. }, true) = (o.inner, o.begin < seq) {
